@@ -107,3 +107,4 @@ pub mod runner;
 pub mod workers;
 pub mod fbuild;
 pub mod pool;
+pub mod sched;
